@@ -221,3 +221,24 @@ def fillCase (c : Case) : List String :=
   ["F" ++ String.join (r.map fun x => " " ++ valText x.s x.e x.v)]
 
 end Drv
+
+namespace Drv
+
+/-! ### C14: prediction from the recorded operation log
+
+`OPLOG` is the implementation's own `OPS` line (`S<pos>`, `W<pos>+<len>`, `W…!` for a write that puts a non-zero
+byte into the magic number, `F`). By `Props.C14.magic_zero_while_no_write_touches_it` every prefix without a
+`!` write is rejected by the readers; the writer lays the header down last, so from that write on the file is
+complete; a failing operation is always reported (explicit final flush). -/
+def opsCase (c : Case) : List String :=
+  let ops := ((c.records "OPLOG").head?.map (·.drop 2)).getD []
+  let hot := ops.map fun t => t.endsWith "!"
+  let n := ops.length
+  let firstHot := hot.idxOf true
+  let verdict (k : Nat) : String := if k ≤ firstHot then "r" else "c"
+  let prefixLine := "PREFIX" ++ String.join ((List.range n).map fun k => " " ++ verdict k)
+  ["R ok", s!"FINAL {if firstHot < n then "opens" else "rejected"}", prefixLine,
+   s!"FIRSTOPEN {if firstHot + 1 < n then toString (firstHot + 1) else "never"}",
+   "FAULT" ++ String.join ((List.range n).map fun _ => " e")]
+
+end Drv
